@@ -819,3 +819,18 @@ Fixpoint has_unicode_space (s : string) : bool :=
       has_prefix (B [226; 128]) s || has_prefix (B [226; 129; 159]) s || has_prefix (B [227; 128; 128]) s ||
       has_unicode_space r
   end.
+
+(* ------------------------------------------------------------------ limiting the number of nodes (glue + graph)
+   report.newTrimmedGraph:  if nodeCount := o.NodeCount; nodeCount > 0 { ... g.SelectTopNodes(nodeCount, ..) ... }
+   graph.selectTopNodes:    if maxNodes > len(g.Nodes) { maxNodes = len(g.Nodes) }; return g.Nodes[:maxNodes]
+   (the visual-mode adjustment only ever sets maxNodes to i+1 for an index i of g.Nodes).
+   The slice expression panics for a negative bound: only the caller's guard keeps negative counts away. *)
+Definition select_top_nodes (len max_nodes : Z) : outcome Z :=
+  let m := if len <? max_nodes then len else max_nodes in
+  if (0 <=? m) && (m <=? len) then Ok m else Panic "slice bounds out of range [:maxNodes]".
+
+(* [guard] is the caller's test on the node count; the code has [fun n => 0 <? n] *)
+Definition limit_nodes (guard : Z -> bool) (node_count len : Z) : outcome Z :=
+  if guard node_count then select_top_nodes len node_count else Ok len.
+
+Definition node_count_guard (n : Z) : bool := 0 <? n.
